@@ -50,7 +50,7 @@ func isRest(ev string) bool {
 	return ev == "ReadyRequested" || ev == "AnteRequested" || ev == "BlindsRequested" || ev == "RoundStarted" || ev == "GameClosed"
 }
 
-func tableGameRun(o *potsOut, run int, r *rand.Rand, cfg HCfg) {
+func tableGameRun(o *potsOut, run int, r *rand.Rand, cfg HCfg) (wasStuck bool) {
 	deck := cfg.Deck
 	g := table.NewGame(&fixedDeckBackend{table.NewNativeBackend(), deck}, cfg.options())
 	ch := make(chan *pf.GameState, 4096)
@@ -58,6 +58,7 @@ func tableGameRun(o *potsOut, run int, r *rand.Rand, cfg HCfg) {
 	m := pf.NewPokerFace().NewGame(cfg.options())
 	var cur *pf.GameState // the table game's state at rest
 	stuck := false
+	defer func() { wasStuck = stuck }()
 	// wait until the table game rests at a wait point again
 	settle := func() {
 		for {
@@ -67,7 +68,7 @@ func tableGameRun(o *potsOut, run int, r *rand.Rand, cfg HCfg) {
 					cur = gs
 					return
 				}
-			case <-time.After(10 * time.Second):
+			case <-time.After(30 * time.Second):
 				stuck = true
 				return
 			}
@@ -102,7 +103,7 @@ func tableGameRun(o *potsOut, run int, r *rand.Rand, cfg HCfg) {
 	}
 	emit("main", "TG.Start", -1, 0, err)
 	if err != nil || stuck {
-		return
+		return stuck
 	}
 	n := len(cfg.Bank)
 	done := map[int]bool{}
@@ -168,7 +169,7 @@ func tableGameRun(o *potsOut, run int, r *rand.Rand, cfg HCfg) {
 			if len(cands) == 0 {
 				stuck = true
 				emit("main", op, -1, 0, nil)
-				return
+				return stuck
 			}
 			i := cands[r.Intn(len(cands))]
 			var e error
@@ -227,9 +228,10 @@ func tableGameRun(o *potsOut, run int, r *rand.Rand, cfg HCfg) {
 		default:
 			stuck = true
 			emit("main", "TG.?", -1, 0, nil)
-			return
+			return stuck
 		}
 	}
+	return stuck
 }
 
 func cmdTableGameRandom(args []string) {
@@ -241,6 +243,7 @@ func cmdTableGameRandom(args []string) {
 	r := rand.New(rand.NewSource(*seed))
 	tw := newTraceWriter(*out)
 	o := &potsOut{w: tw}
+	stuckRuns := 0
 	for i := 0; i < *runs; i++ {
 		cfg := genCfg(r, false)
 		// the table layer needs somebody to post a blind (an empty ready group never completes) and a fixed deck
@@ -250,7 +253,12 @@ func cmdTableGameRandom(args []string) {
 		if cfg.Deck == nil {
 			cfg.Deck = shuffled(r, cfg.options().Deck)
 		}
-		tableGameRun(o, i, r, cfg)
+		if tableGameRun(o, i, r, cfg) {
+			stuckRuns++
+			if stuckRuns >= 3 {
+				break // a table layer that stalls every hand would cost 30 s per run
+			}
+		}
 	}
 	tw.close()
 	b, _ := json.Marshal(M{"runs": *runs, "lines": o.lines})
